@@ -120,7 +120,11 @@ def run(ctx):
                               f"two requests of {what} share indices",
                               {"run": label, "shared": names}, True)
         for name, r in got["results"].items():
-            r0 = ref["results"][name]
+            # the request with explicit names taken from the generic pool
+            # must equal the plain request (targets renamed to i, a)
+            r0 = ref["results"]["amplitude_2_ph"
+                                if name == "amplitude_2_ph_pool_names"
+                                else name]
             pr = EQ.Pair(None, None, [], f"{name}|{label}", frac="e",
                          special={"e": numeric.orb_energy_special})
             pr.p1, pr.p2, pr.tg = r["terms"], r0["terms"], r0["targets"]
@@ -141,7 +145,7 @@ def run(ctx):
                 {"request": name, "run": label, "difference": pr.diff,
                  "text": text[:600], "reference_text": text0[:600]},
                 pr.diff is not None)
-        if label.startswith("config="):
+        if label.startswith("config=") or name.endswith("pool_names"):
             continue      # names differ by construction
         if not ctx.obligation(f"text of {name} independent of {label}",
                               text == text0):
